@@ -306,6 +306,7 @@ def judge_unblock(ctx, case, data):
 
 
 def canaries(ctx):
+    ctx.repo_tests_under_monitors(('C05',))       # second, independent workload for the same oracle
     P = _PAYLOAD['F3']
     ctx.canary('model drops trailers', P[1012:1013] == _DATA[1012:1013] and len(P) == 3036)
     ctx.canary('short last chunk keeps its bytes', len(_PAYLOAD['F5s']) == 5 * 1012 + 500)
